@@ -267,6 +267,241 @@ one_bc(uint32_t dist, int len, uint64_t seed)
                         dist, len, (unsigned long long) seed);
 }
 
+/* ------------------------------------------------------------------ decode lookup tables
+ * Reference = prefix decoding straight from the definition: a bit string (first bit = bit 0) decodes to
+ * the unique symbol whose canonical code (RFC 1951 3.2.2, most significant code bit first) it starts with. */
+static const uint8_t rfc_len_extra[29] = { 0, 0, 0, 0, 0, 0, 0, 0, 1, 1, 1, 1, 2, 2, 2, 2, 3, 3, 3, 3, 4, 4, 4, 4, 5, 5, 5, 5, 0 };
+static const uint16_t rfc_len_base[29] = { 3, 4, 5, 6, 7, 8, 9, 10, 11, 13, 15, 17, 19, 23, 27, 31, 35, 43, 51, 59, 67, 83, 99, 115, 131, 163, 195, 227, 258 };
+static const uint8_t rfc_dist_extra[30] = { 0, 0, 0, 0, 1, 1, 2, 2, 3, 3, 4, 4, 5, 5, 6, 6, 7, 7, 8, 8, 9, 9, 10, 10, 11, 11, 12, 12, 13, 13 };
+
+static unsigned rcode[600]; /* canonical code, bit-reversed (first transmitted bit = bit 0) */
+static int
+ref_codes(const uint8_t *len, int n)
+{
+        unsigned bl[16] = { 0 }, next[16], code = 0;
+        uint64_t kraft = 0;
+        for (int i = 0; i < n; i++)
+                bl[len[i]]++;
+        bl[0] = 0;
+        for (int b = 1; b <= 15; b++) {
+                code = (code + bl[b - 1]) << 1;
+                next[b] = code;
+                kraft += (uint64_t) bl[b] << (15 - b);
+        }
+        if (kraft > 32768)
+                return -1;
+        for (int i = 0; i < n; i++)
+                rcode[i] = len[i] ? rev(next[len[i]]++, len[i]) : 0;
+        return 0;
+}
+/* symbol whose code is a prefix of `bits` (nbits valid), -1 if none; *l = its length */
+static int
+ref_prefix(const uint8_t *len, int n, uint32_t bits, unsigned nbits, unsigned *l)
+{
+        for (int i = 0; i < n; i++)
+                if (len[i] && len[i] <= nbits && (bits & ((1u << len[i]) - 1)) == rcode[i]) {
+                        *l = len[i];
+                        return i;
+                }
+        return -1;
+}
+static int
+has_long(const uint8_t *len, int n, uint32_t idx, unsigned sb, unsigned *maxl)
+{
+        int any = 0;
+        *maxl = 0;
+        for (int i = 0; i < n; i++)
+                if (len[i] > sb && (rcode[i] & ((1u << sb) - 1)) == idx) {
+                        any = 1;
+                        if (len[i] > *maxl)
+                                *maxl = len[i];
+                }
+        return any;
+}
+
+#define TBA "which=%d seed=0x%llx nsym=%d pattern=%d max_symbol=%u multisym=%u"
+#define TBV which, (unsigned long long) seed, nsym, pattern, max_symbol, multisym
+/* which: 0 dist, 1 header, 2 lit/len.  Lengths derived from (seed, nsym, pattern) */
+static void
+one_tables(int which, uint64_t seed, int nsym, int pattern, uint32_t max_symbol, uint32_t multisym)
+{
+        static uint8_t len[LIT_LEN];
+        const int n = which == 0 ? DIST_LEN : which == 1 ? CODE_LEN_CODES : LIT_LEN;
+        uint64_t x = seed | 1;
+        memset(len, 0, sizeof len);
+        if (pattern == 0) { /* nsym symbols at pseudo-random positions, lengths 0..15 from the seed nibbles */
+                for (int k = 0; k < nsym; k++) {
+                        x ^= x << 13; x ^= x >> 7; x ^= x << 17;
+                        len[(k == 0 ? 0 : k == 1 ? 1 : (int) (x >> 20) % n)] = (uint8_t) ((seed >> (4 * k)) & 15);
+                }
+        } else { /* dense vector: lengths around a centre, made prefix-free by lengthening until Kraft fits */
+                int centre = 2 + (int) (seed % 11);
+                for (int i = 0; i < n; i++) {
+                        x ^= x << 13; x ^= x >> 7; x ^= x << 17;
+                        int l = centre + (int) ((x >> 9) % 7) - 3;
+                        len[i] = (uint8_t) ((x >> 40) % 5 == 0 && pattern == 2 ? 0 : l < 1 ? 1 : l > 15 ? 15 : l);
+                }
+                for (;;) {
+                        uint64_t kr = 0;
+                        for (int i = 0; i < n; i++)
+                                if (len[i]) kr += 1ull << (15 - len[i]);
+                        if (kr <= 32768) break;
+                        for (int i = 0; i < n; i++)
+                                if (len[i] && len[i] < 15 && kr > 32768) { kr -= 1ull << (15 - len[i] - 1); len[i]++; }
+                }
+        }
+        if (which == 2 && len[256] == 0)
+                len[256] = 15; /* the callers reject a lit/len code without end-of-block */
+        if (ref_codes(len, n))
+                return;
+        if (which < 2) {
+                struct huff_code t[DIST_LEN];
+                uint16_t count[16] = { 0 };
+                struct inflate_huff_code_small res;
+                memset(t, 0, sizeof t);
+                for (int i = 0; i < n; i++) {
+                        t[i].length = len[i];
+                        if (len[i]) count[len[i]]++;
+                }
+                if (set_codes(t, n, count))
+                        rp_fail(TBA " :: set_codes rejects a set with Kraft sum <= 1", TBV);
+                memset(&res, 0xff, sizeof res);
+                if (which == 0)
+                        make_inflate_huff_code_dist(&res, t, n, count, max_symbol);
+                else
+                        make_inflate_huff_code_header(&res, t, n, count, max_symbol = n);
+                for (uint32_t idx = 0; idx < 1024; idx++) {
+                        uint16_t e = res.short_code_lookup[idx];
+                        unsigned l, ml;
+                        int s = ref_prefix(len, n, idx, 10, &l);
+                        if (e == 0xffff)
+                                rp_fail(TBA " g_i=%u :: short_code_lookup[%u] not written by this call (stale)", TBV, idx, idx);
+                        if (s >= 0) {
+                                uint16_t want = (uint32_t) s < max_symbol
+                                                        ? (uint16_t) (s | (which == 0 ? rfc_dist_extra[s] << 5 : 0) | l << 11)
+                                                        : (uint16_t) l;
+                                if (e != want)
+                                        rp_fail(TBA " g_i=%u :: short entry 0x%x, bits decode to symbol %d length %u -> 0x%x", TBV, idx, e, s, l, want);
+                        } else if (has_long(len, n, idx, 10, &ml)) {
+                                if (!(e & SMALL_FLAG_BIT) || (e >> 11) != ml || (e & 0x1ff) + (1u << (ml - 10)) > ISAL_HUFF_CODE_SMALL_LONG_ALIGNED)
+                                        rp_fail(TBA " g_i=%u :: short entry 0x%x should point to a long-code slice of max length %u", TBV, idx, e, ml);
+                                for (uint32_t j = 0; j < (1u << (ml - 10)); j++) {
+                                        uint16_t le = res.long_code_lookup[(e & 0x1ff) + j];
+                                        s = ref_prefix(len, n, idx | j << 10, ml, &l);
+                                        uint16_t want = s < 0 ? 0 : (uint32_t) s < max_symbol ? (uint16_t) (s | (which == 0 ? rfc_dist_extra[s] << 5 : 0) | l << 10) : (uint16_t) l;
+                                        if (le == 0xffff)
+                                                rp_fail(TBA " g_i=%u g_j=%u :: long_code_lookup entry not written by this call (stale)", TBV, idx, j);
+                                        if (le != want)
+                                                rp_fail(TBA " g_i=%u g_j=%u :: long entry 0x%x, expected 0x%x", TBV, idx, j, le, want);
+                                }
+                        } else if (e != 0)
+                                rp_fail(TBA " g_i=%u :: short entry 0x%x for bits that start no code (must be the invalid entry 0)", TBV, idx, e);
+                }
+                return;
+        }
+        /* lit/len: bookkeeping arrays as setup_dynamic_header keeps them while reading the lengths */
+        {
+                static struct huff_code t[LIT_LEN_ELEMS];
+                static struct inflate_huff_code_large res;
+                static uint32_t code_list[LIT_LEN_ELEMS + 2];
+                uint16_t lit_count[MAX_LIT_LEN_COUNT] = { 0 }, expand[MAX_LIT_LEN_COUNT] = { 0 };
+                memset(t, 0, sizeof t);
+                for (int i = 0; i < LIT_LEN; i++) {
+                        t[i].length = len[i];
+                        if (!len[i]) continue;
+                        lit_count[len[i]]++;
+                        if (i >= 264) {
+                                int e = rfc_len_extra[i - 257];
+                                expand[len[i]]--;
+                                expand[len[i] + e] += 1 << e;
+                        }
+                }
+                for (int i = LIT_LEN; i < LIT_LEN_ELEMS; i++)
+                        t[i].code_and_length = 0xa5a5a5a5u; /* the caller keeps distance code lengths there: stale data */
+                if (set_and_expand_lit_len_huffcode(t, LIT_LEN, lit_count, expand, code_list))
+                        rp_fail(TBA " :: set_and_expand_lit_len_huffcode rejects a set with Kraft sum <= 1", TBV);
+                /* expanded entries: RFC base + extra */
+                {
+                        unsigned off = 0;
+                        for (int k = 0; k < 29; k++) {
+                                unsigned e = rfc_len_extra[k], L = len[257 + k];
+                                for (unsigned xv = 0; xv < (1u << e); xv++, off++) {
+                                        uint32_t got = t[257 + off].code_and_length;
+                                        uint32_t want = L ? ((rcode[257 + k] | xv << L) | (L + e) << 24) : 0;
+                                        if (got != want)
+                                                rp_fail(TBA " g_p=%d g_d=%u :: expanded entry %u = 0x%x, RFC code+extra gives 0x%x (length %u = base %u + %u)",
+                                                        TBV, 257 + k, xv, 257 + off, got, want, rfc_len_base[k] + xv, rfc_len_base[k], xv);
+                                }
+                        }
+                        for (int i = 0; i < 257; i++)
+                                if (t[i].code_and_length != (len[i] ? (rcode[i] | (uint32_t) len[i] << 24) : 0))
+                                        rp_fail(TBA " g_p=%d :: literal entry 0x%x, canonical code 0x%x length %u", TBV, i, t[i].code_and_length, rcode[i], len[i]);
+                }
+                memset(&res, 0xff, sizeof res);
+                make_inflate_huff_code_lit_len(&res, t, LIT_LEN_ELEMS, lit_count, code_list, multisym);
+                for (uint32_t idx = 0; idx < 4096; idx++) {
+                        uint32_t e = res.short_code_lookup[idx];
+                        if (e == 0xffffffffu)
+                                rp_fail(TBA " g_i=%u :: short_code_lookup[%u] not written by this call (stale)", TBV, idx, idx);
+                        if (e & LARGE_FLAG_BIT) {
+                                unsigned ml = e >> LARGE_SHORT_MAX_LEN_OFFSET, off = e & LARGE_SHORT_SYM_MASK;
+                                if (ml <= 12 || ml > 21 || off + (1u << (ml - 12)) > ISAL_HUFF_CODE_LARGE_LONG_ALIGNED)
+                                        rp_fail(TBA " g_i=%u :: bad long pointer 0x%x", TBV, idx, e);
+                                for (uint32_t j = 0; j < (1u << (ml - 12)); j++) {
+                                        uint16_t le = res.long_code_lookup[off + j];
+                                        if (le == 0xffff)
+                                                rp_fail(TBA " g_i=%u g_j=%u :: long_code_lookup entry not written by this call (stale)", TBV, idx, j);
+                                        /* reference: literal / EOB / length+extra starting the bits idx | j<<12 */
+                                        uint32_t bits = idx | j << 12;
+                                        unsigned l;
+                                        int s = ref_prefix(len, LIT_LEN, bits, ml, &l), want = 0;
+                                        if (s >= 0 && s <= 256)
+                                                want = s | l << 10;
+                                        else if (s > 256 && l + rfc_len_extra[s - 257] <= ml) {
+                                                unsigned ev = (bits >> l) & ((1u << rfc_len_extra[s - 257]) - 1);
+                                                want = (254 + rfc_len_base[s - 257] + ev) | (l + rfc_len_extra[s - 257]) << 10;
+                                        } else if (s > 256)
+                                                continue; /* slice shorter than code+extra of this symbol: other group */
+                                        if (le != want)
+                                                rp_fail(TBA " g_i=%u g_j=%u :: long entry 0x%x, expected 0x%x", TBV, idx, j, le, want);
+                                }
+                                continue;
+                        }
+                        /* short entry: 1..3 packed symbols, each must be what the reference decodes next */
+                        unsigned cnt = (e >> LARGE_SYM_COUNT_OFFSET) & 3, tot = e >> LARGE_SHORT_CODE_LEN_OFFSET, used = 0;
+                        uint32_t syms = e & LARGE_SHORT_SYM_MASK;
+                        if (tot == 0) {
+                                unsigned l;
+                                int s = ref_prefix(len, LIT_LEN, idx, 12, &l);
+                                if (s >= 0 && l + (s > 256 ? rfc_len_extra[s - 257] : 0) <= 12)
+                                        rp_fail(TBA " g_i=%u :: entry is 'invalid' but the bits start the code of symbol %d", TBV, idx, s);
+                                continue;
+                        }
+                        if (cnt == 0 || cnt > 3 || tot > 12)
+                                rp_fail(TBA " g_i=%u :: malformed short entry 0x%x", TBV, idx, e);
+                        for (unsigned c = 0; c < cnt; c++) {
+                                unsigned l;
+                                uint32_t sym = c + 1 < cnt ? (syms >> (8 * c)) & 0xff : syms >> (8 * c);
+                                int s = ref_prefix(len, LIT_LEN, idx >> used, 12 - used, &l), want;
+                                if (s < 0)
+                                        rp_fail(TBA " g_i=%u :: entry 0x%x decodes symbol %u but the bits start no code", TBV, idx, e, c);
+                                if (s <= 256)
+                                        want = s;
+                                else {
+                                        unsigned ev = ((idx >> used) >> l) & ((1u << rfc_len_extra[s - 257]) - 1);
+                                        want = 254 + rfc_len_base[s - 257] + ev;
+                                        l += rfc_len_extra[s - 257];
+                                }
+                                if ((int) sym != want)
+                                        rp_fail(TBA " g_i=%u :: entry 0x%x symbol %u is %u, reference decodes %d", TBV, idx, e, c, sym, want);
+                                used += l;
+                        }
+                        if (used != tot)
+                                rp_fail(TBA " g_i=%u :: entry 0x%x consumes %u bits, its symbols need %u", TBV, idx, e, tot, used);
+                }
+        }
+}
+
 RP_MAIN_BEGIN
 fill(IN, sizeof IN);
 fill(OUT, sizeof OUT);
@@ -382,5 +617,64 @@ RP_MODE("bit_reverse2")
                                 rp_fail("bits=%u length=%u :: got 0x%x expected 0x%x", v, l, bit_reverse2(v, l),
                                         rev(v & ((1u << l) - 1), l));
                 }
+}
+RP_MODE("mk_tables")
+{
+        if (!rp_search)
+                one_tables((int) rp_get("which", 0) % 3, rp_get("seed", 0xcb), (int) rp_get("nsym", 2) % 4, (int) rp_get("pattern", 0) % 3,
+                           (uint32_t) rp_get("max_symbol", 30), (uint32_t) rp_get("multisym", 2) % 3);
+        else {
+                for (int which = 0; which < 2; which++) {
+                        for (uint64_t v = 0; v < 4096; v++) /* every <= 3-symbol vector, lengths 0..15 */
+                                for (uint32_t ms = 30; ms <= 30 || (which == 0 && ms == 31); ms++)
+                                        one_tables(which, v | (uint64_t) (v * 2654435761u) << 12, 3, 0, which == 0 && ms == 31 ? 1 : 30, 2);
+                        for (int k = 0; k < 3000; k++)
+                                one_tables(which, rp_rand(), 0, 1 + k % 2, which == 0 ? 2 + (uint32_t) (rp_rand() % 29) : 19, 2);
+                }
+                for (int k = 0; k < 600; k++)
+                        one_tables(2, rp_rand(), 0, 1 + k % 2, 0, (uint32_t) k % 3);
+                for (uint64_t v = 0; v < 256; v++)
+                        one_tables(2, v | rp_rand() << 12, 2, 0, 0, (uint32_t) v % 3);
+        }
+}
+RP_MODE("static_tables")
+{
+        /* RFC 1951 3.2.6: fixed code lengths 8 (0..143), 9 (144..255), 7 (256..279), 8 (280..287); 30 distance
+         * codes of 5 bits.  Every symbol (+ extra bits, + arbitrary following bits) must decode through the
+         * pre-generated tables of igzip/static_inflate.h to that symbol. */
+#ifdef ISAL_STATIC_INFLATE_TABLE
+        static uint8_t len[288];
+        for (int i = 0; i < 288; i++)
+                len[i] = i < 144 ? 8 : i < 256 ? 9 : i < 280 ? 7 : 8;
+        ref_codes(len, 288);
+        for (int s = 0; s < 286; s++) {
+                unsigned e = s > 256 ? rfc_len_extra[s - 257] : 0, L = len[s];
+                for (unsigned ev = 0; ev < (1u << e); ev++)
+                        for (uint32_t pad = 0; pad < (1u << (15 - L - e)); pad++) {
+                                uint32_t bits = rcode[s] | ev << L | pad << (L + e), ent = static_lit_huff_code.short_code_lookup[bits & 4095];
+                                uint32_t want_sym = s <= 256 ? (uint32_t) s : 254 + rfc_len_base[s - 257] + ev, first, blen;
+                                if (ent & LARGE_FLAG_BIT) { /* code + extra bits longer than 12: second-level table */
+                                        uint32_t ml = ent >> LARGE_SHORT_MAX_LEN_OFFSET;
+                                        uint16_t le = static_lit_huff_code.long_code_lookup[(ent & LARGE_SHORT_SYM_MASK) + ((bits & ((1u << ml) - 1)) >> 12)];
+                                        first = le & LARGE_LONG_SYM_MASK;
+                                        blen = le >> LARGE_LONG_CODE_LEN_OFFSET;
+                                } else {
+                                        uint32_t cnt = (ent >> LARGE_SYM_COUNT_OFFSET) & 3;
+                                        first = cnt > 1 ? ent & 0xff : ent & LARGE_SHORT_SYM_MASK;
+                                        blen = cnt == 1 ? ent >> LARGE_SHORT_CODE_LEN_OFFSET : L + e;
+                                }
+                                if (first != want_sym || blen != L + e)
+                                        rp_fail("sym=%d extra=%u pad=%u :: static lit/len tables decode symbol %u with %u bits (entry 0x%x), RFC fixed code says %u with %u bits", s, ev, pad, first, blen, ent, want_sym, L + e);
+                        }
+        }
+        for (int i = 0; i < 30; i++) {
+                unsigned c = rev(i, 5);
+                for (uint32_t pad = 0; pad < 32; pad++) {
+                        uint16_t ent = static_dist_huff_code.short_code_lookup[c | pad << 5];
+                        if (ent != (i | rfc_dist_extra[i] << 5 | 5 << 11))
+                                rp_fail("dist=%d pad=%u :: static distance entry 0x%x, RFC fixed code says symbol %d, %u extra bits, 5 code bits", i, pad, ent, i, rfc_dist_extra[i]);
+                }
+        }
+#endif
 }
 RP_MAIN_END
